@@ -292,7 +292,7 @@ def run(ctx):
             res.bad('delete/marks-own-id', 'TombstoneArena::delete must mark exactly its id argument dead and run on_delete on that item')
         # (a5) ArenaSet
         AS = 'arena_set::ArenaSet::<T>::'
-        pol2 = local_policy(F, AS + 'insert', events=[r'HashMap::(remove|insert|get)$', r'TombstoneArena::<T>::(delete|alloc)$',
+        pol2 = local_policy(F, AS + 'insert', events=[r'HashMap::(remove|insert|get)$', r'VacantEntry::insert$', r'TombstoneArena::<T>::(delete|alloc)$',
                                                       r'TombstoneArena::(delete|alloc)$'])
         ws = Evaluator(F, pol2).run_fn(AS + 'remove', [sym('self'), sym('id')])
         good = len(ws) > 0
@@ -317,14 +317,22 @@ def run(ctx):
         for w in ws:
             tr = [e for e in w.trace if e['kind'] == 'call']
             names = [e['callee'].split('::')[-1] for e in tr]
-            hit = any(isinstance(v, tuple) and v and v[0] == 'ctor' and v[2] == 'Some' for k, v in w.assumptions)
+            # the lookup: `map.get(&val)` (Some / None) or `map.entry(val)` (Occupied / Vacant)
+            hit = any(isinstance(v, tuple) and v and v[0] == 'ctor' and v[2] in ('Some', 'Occupied') for k, v in w.assumptions)
             if hit:
-                hit_ok = 'alloc' not in names and 'insert' not in names and 'get(self.already_in_arena' in show(w.value)
+                hit_ok = 'alloc' not in names and 'insert' not in names and re.search(r'get\((entry\()?self\.already_in_arena', show(w.value)) is not None
             else:
                 al = [e for e in tr if e['callee'].endswith('alloc')]
-                ins = [e for e in tr if e['callee'].endswith('HashMap::insert')]
-                miss_ok = len(al) == 1 and len(ins) == 1 and show(ins[0]['args'][1]) == 'val' and 'alloc(' in show(ins[0]['args'][2]) \
-                    and show(w.value) == show(ins[0]['args'][2])
+                ins = [e for e in tr if e['callee'].endswith('HashMap::insert') or e['callee'].endswith('VacantEntry::insert')]
+                if len(al) == 1 and len(ins) == 1:
+                    i = ins[0]
+                    if i['callee'].endswith('HashMap::insert'):
+                        key_ok, stored = show(i['args'][1]) == 'val', i['args'][2]
+                    else:
+                        key_ok, stored = show(i['args'][0]).startswith('entry(self.already_in_arena, val)'), i['args'][1]
+                    miss_ok = key_ok and 'alloc(' in show(stored) and (show(w.value) == show(stored) or show(stored) in show(w.value))
+                else:
+                    miss_ok = False
         if hit_ok and miss_ok:
             res.ok('arena-set/insert-dedup', {'insert': 'existing id on hit; alloc + record on miss'})
         else:
